@@ -139,6 +139,12 @@ def oracle_c12(script, ig, mg):
             fails.append(("decoding-depends-on-how-the-reader-chops-the-input",
                           {"group": i, "whole": ig[i - 1].line, "chopped": a.line, "cmd": script[i][:80]}))
             break
+        if a.line == "bad-op" and i < len(mg) and mg[i].line != "bad-op" and i < len(script) \
+                and script[i].split()[0] in ("enc", "rt") and script[i].split()[1] == "S":
+            # the harness builds a State record by decoding the hand-made encoding of its fields (the
+            # fields are private): the implementation refused to decode a valid encoding
+            fails.append(("valid-state-encoding-does-not-decode", {"group": i, "cmd": script[i][:120]}))
+            break
         if a.line.startswith("rt ") and not re.fullmatch(r"rt ok \d+", a.line):
             fails.append(("big-record-does-not-round-trip", {"group": i, "impl": a.line, "cmd": script[i][:80]}))
             break
@@ -648,6 +654,23 @@ def scripts_c16(tier, rng):
         out.append((f"c16_{i}", g.script()))
         for k, v in g.stats.items():
             stats[k] = stats.get(k, 0) + v
+    # small-scope sweep around the purge point: every purge point 0..2 (incl. none) x every
+    # truncate / commit / read argument 0..4 right after it, also after a restart
+    k = 0
+    for first in (0, 1):
+        for pp in (None, 0, 1, 2):
+            for restart in (False, True):
+                for arg in range(0, 5):
+                    pre = ["cfg mr=3", "open", "app " + " ".join(f"1,{first + x},aa" for x in range(4))]
+                    if pp is not None:
+                        pre.append(f"purge 1 {first + pp}")
+                    if restart:
+                        pre += ["flush 1", "widle", "drop", "open"]
+                    for op in (f"trunc {arg}", f"commit 0 {arg}", f"commit 1 {arg}", f"read {arg} {first + 2}",
+                               f"purge 0 {arg}", f"app 1,{arg},bb"):
+                        out.append((f"c16s_{k}", pre + [op, "st", f"read 0 {U64MAX}"]))
+                        k += 1
+    stats["small-scope-purge-point"] = k
     # any state: histories with small caches, chunk rotations, truncations and
     # re-appends, explicit flush-worker steps (a panic on the worker thread
     # counts, and so does what it does to later calls)
@@ -1595,6 +1618,11 @@ def oracle_c13(script, ig, mg):
                 fails.append(("refused-although-nobody-owns-the-directory", {"group": i, "line": g.line}))
                 return fails
         elif c in ("drop", "droppanic", "dropslow") and g.line.startswith("dropped") and owner == "store":
+            if g.line != "dropped":
+                # the owner is gone (and with it the directory lock) while its worker still runs
+                fails.append(("directory-lock-released-while-owner-still-active",
+                              {"group": i, "line": g.line, "later": [x.line for x in ig[i + 1:i + 3]]}))
+                return fails
             owner = None
         elif c == "dumpdrop" and owner == "dump":
             owner = None
@@ -1618,6 +1646,16 @@ def scripts_c13(tier, rng):
         t, p, it = r.choice([(2, 0, 30), (4, 2, 20), (8, 1, 15), (3, 3, 12)])
         lines += [f"lockrace {t} {p} {it}", "open", f"read 0 {U64MAX}", "dumpopen", "drop", "dumpopen", "open",
                   "dumpdrop", "open", f"read 0 {U64MAX}"]
+        if i % 10 == 3:
+            # the owner is dropped while its worker needs more than a second per remaining step: the
+            # lock must stay held until the worker is done (probe before every worker call), and the
+            # directory is free right afterwards
+            rr = rng.fork()
+            mr = 2 + rr.below(2)
+            nn = 2 * mr + 1 + rr.below(3)
+            lines = [f"cfg mr={mr}", "open", "app " + " ".join(f"1,{x},{gen.rnd_bytes_token(rr, [1, 7])}" for x in range(nn)),
+                     "flush 1", "widle", f"purge 1 {mr + rr.below(nn - mr - 1)}", "flush 9000", "wack 9000", "dropslow",
+                     "open", f"read 0 {U64MAX}", "dumpopen", "drop", "dumpopen", "dumpdrop", "open", "drop"]
         if i % 6 == 1:
             # a process forked while the store was open still holds a copy of the
             # lock file's descriptor when the owner is dropped
